@@ -1169,13 +1169,13 @@ def emit_lean(g, key, cfg):
     L.append("/-- number of nodes; node `i` is the function `nodeNames[i]` -/")
     L.append("def numNodes : Nat := %d" % len(g.names))
     L.append("")
-    # names, chunked
+    # names, chunked (a name = 1 followed by its bytes, as one base-256 number; `name! "..."` in Reach.lean)
     nchunks = []
-    for c in range(0, len(g.names), 200):
-        nm = "nodeNames%d" % (c // 200)
+    for c in range(0, len(g.names), 100):
+        nm = "nodeNames%d" % (c // 100)
         nchunks.append(nm)
-        L.append("def %s : List String := [" % nm)
-        part = g.names[c:c + 200]
+        L.append("def %s : List Nat := [" % nm)
+        part = g.names[c:c + 100]
         for k, n in enumerate(part):
             tag = []
             i = c + k
@@ -1186,13 +1186,13 @@ def emit_lean(g, key, cfg):
             comment = dm.get(n, n)
             if comment == n:
                 comment = ""
-            L.append("  %s%s  -- %d%s%s" % (lean_str(n), "," if k + 1 < len(part) else "", i,
-                                            (" [" + ",".join(tag) + "]") if tag else "",
-                                            (" " + comment[:150].replace("\n", " ")) if comment else ""))
+            L.append("  -- %d%s %s%s" % (i, (" [" + ",".join(tag) + "]") if tag else "", n[:200],
+                                        (" = " + comment[:150].replace("\n", " ")) if comment else ""))
+            L.append("  0x01%s%s" % (n.encode().hex(), "," if k + 1 < len(part) else ""))
         L.append("]")
-    L.append("/-- mangled names of the nodes: `Props/C03.lean` pins the public realtime API (must be entries) and the")
-    L.append("    allocator / lock names (must be forbidden) against this list -/")
-    L.append("def nodeNames : List String := " + " ++ ".join(nchunks))
+    L.append("/-- mangled names of the nodes, coded as numbers: `Props/C03.lean` pins the public realtime API (must be")
+    L.append("    entries) and the allocator / lock names (must be forbidden) against this list -/")
+    L.append("def nodeNames : List Nat := " + " ++ ".join(nchunks))
     L.append("")
     # edges
     echunks = []
